@@ -96,10 +96,17 @@ int backup_copy_file(const char *filename, const vector<UINT8> &data)
       size_t retval   = fwrite(data.data(), data.size(), 1, thefile);
       int    my_errno = errno;
 
-      fclose(thefile);
+      // buffered data is only written out by fclose(), so it can fail as well
+      bool closed = (fclose(thefile) == 0);
 
-      if (  retval == 1
-         || data.empty())
+      if (!closed)
+      {
+         my_errno = errno;
+      }
+
+      if (  closed
+         && (  retval == 1
+            || data.empty()))
       {
          return(EX_OK);
       }
